@@ -90,8 +90,10 @@ static void check_eigen(const Rows& a, const std::string& fam)
 	if(!(fabsl(prod - dref) <= 1e-8L * n * fabsl(dref))) fail("eigenvalues", fam, a, "product_not_determinant", "product " + mc::dec((double)prod) + " determinant " + mc::dec((double)dref));
 	mc::maxi("eigenvalue_err_over_tol", e / tol);
 	// Eigensystem / Eigenvectors: one child each, 2 s limit
+	std::string payload_es;
 	for(int which = 0; which < 2; which++)
 	{
+		const char* fn = which ? "Eigenvectors" : "Eigensystem";
 		auto o = mc::isolate([&](std::function<void(const std::string&)> out) {
 			Matrix M(a);
 			std::string s;
@@ -115,12 +117,42 @@ static void check_eigen(const Rows& a, const std::string& fam)
 					s += ";";
 				}
 			}
-			out(s);
+			// the caller's matrix is an input: it must come back unchanged
+			bool same = M.Rows() == (unsigned)n && M.Columns() == (unsigned)n;
+			for(int i = 0; same && i < n; i++)
+				for(int k = 0; k < n; k++) if(!mc::same_bits(((const Matrix&)M)[i][k], a[i][k])) same = false;
+			out(s + (same ? "" : "MODIFIED;"));
 		}, 2.0);
-		const char* fn = which ? "Eigenvectors" : "Eigensystem";
 		mc::count("eigensystem_children", 1);
 		if(o.kind == mc::Outcome::TIMEOUT) { fail(fn, fam, a, "does_not_terminate", std::string(fn) + " did not return within 2 s"); continue; }
 		if(o.kind != mc::Outcome::RETURNED) { fail(fn, fam, a, "terminated_process", std::string(fn) + " ended the process: " + o.name() + " " + o.out.substr(0, 120)); continue; }
+		if(o.payload.find("MODIFIED;") != std::string::npos)
+		{
+			fail(fn, fam, a, "argument_matrix_modified", std::string(fn) + " changed the matrix it was given");
+			o.payload.erase(o.payload.find("MODIFIED;"), 9);
+		}
+		if(which == 0) payload_es = o.payload;
+		else if(!payload_es.empty())
+		{
+			// the two spellings describe the same vectors (up to an overall sign each)
+			std::vector<std::vector<double>> A1, A2;
+			for(int w = 0; w < 2; w++)
+			{
+				std::stringstream s2(w ? o.payload : payload_es);
+				std::string it;
+				while(std::getline(s2, it, ';'))
+					if(!it.empty()) (w ? A2 : A1).push_back(mc::parsev(it.substr(it.find(':') + 1)));
+			}
+			bool agree = A1.size() == A2.size();
+			for(size_t i = 0; agree && i < A1.size(); i++)
+			{
+				double dp = 0, dm = 0;
+				if(A1[i].size() != A2[i].size()) { agree = false; break; }
+				for(size_t k = 0; k < A1[i].size(); k++) { dp = std::max(dp, std::fabs(A1[i][k] - A2[i][k])); dm = std::max(dm, std::fabs(A1[i][k] + A2[i][k])); }
+				if(!(std::min(dp, dm) <= 1e-12)) agree = false;
+			}
+			if(!agree) fail(fn, fam, a, "eigenvectors_differ_from_eigensystem", "Eigenvectors(M) is not the second component of Eigensystem(M) (up to signs, 1e-12)");
+		}
 		// parse
 		std::stringstream ss(o.payload);
 		std::string item;
@@ -250,6 +282,22 @@ static std::vector<Rows> orthogonal_family(int n)
 			}
 			fam.push_back(Q);
 		}
+	// rotations by tiny angles: eigenvectors with genuine components of 1e-7 ... 1e-10 (weakly coupled blocks)
+	if(n >= 2)
+		for(double th : {1e-7, 1e-9, 3e-10})
+		{
+			Rows Q = I;
+			for(int i = 0; i + 1 < n; i++)
+			{
+				Rows G = I;
+				int p = i, r = (i % 2) ? n - 1 : i + 1;
+				if(p == r) continue;
+				double t = th * (1 + i);
+				G[p][p] = std::cos(t); G[r][r] = std::cos(t); G[p][r] = -std::sin(t); G[r][p] = std::sin(t);
+				Q = mul(Q, G);
+			}
+			fam.push_back(Q);
+		}
 	// Householder reflectors of integer vectors
 	for(int v = 0; v < (mc::thorough() ? 5 : 2) && n > 1; v++)
 	{
@@ -342,6 +390,21 @@ int main(int argc, char** argv)
 				for(int i = 0; i < n; i++)
 					for(int j = 0; j < n; j++) g[i][j] *= std::pow(10.0, ((i * (sc + 1)) % 3 - 1)) * std::pow(10.0, ((j + sc) % 3 - 1) * (sc / 2));
 				check_qr(g, "graded_scaling");
+			}
+		}
+	// geometric singular values up to the stated condition number 1e6, sizes 4..7 (the product of the diagonal of R gets as small as 1e-18 |M|^n)
+	for(int n = 4; n <= 7; n++)
+		for(double cond : {1e3, 9e5})
+		{
+			auto fam = orthogonal_family(n);
+			for(size_t qi = 3; qi < fam.size(); qi += 2)
+			{
+				if(!mc::mine(unit++)) continue;
+				std::vector<double> sv(n);
+				for(int i = 0; i < n; i++) sv[i] = std::pow(cond, -(double)i / (n - 1));
+				Rows D(n, std::vector<double>(n, 0.0));
+				for(int i = 0; i < n; i++) D[i][i] = sv[i];
+				check_qr(mul(mul(fam[qi], D), transpose(fam[(qi + 1) % fam.size()])), "geometric_singular_values");
 			}
 		}
 	// all 3x3 over {-1,0,1} that are non-singular (exactly)
